@@ -164,21 +164,58 @@ fire("withoptions-keys-unfiltered", ["C03", "C02"], "R-PO", O,
      """        return {
             key
             for key in self.evaluatable.keys(self._options(options))
-            if not (
-                dotted_key_exists(key, self.options)
-                and (self.force or not dotted_key_exists(key, options))
-            )
+            if not self._is_preset(key, options)
         }""",
      "        return set(self.evaluatable.keys(self._options(options)))")
 fire("withoptions-keys-drops-caller-keys", ["C01", "C03"], "R-PO", O,
-     """            for key in self.evaluatable.keys(self._options(options))
-            if not (
-                dotted_key_exists(key, self.options)
-                and (self.force or not dotted_key_exists(key, options))
-            )""",
-     """            for key in self.evaluatable.keys(self._options(options))
-            if not dotted_key_exists(key, self.options)""",
+     "        if not self.force:\n            return not dotted_key_exists(key, options)\n",
+     "        if not self.force:\n            return True\n",
      note="drops keys the caller overrides on a default-options wrapper -> stale hit")
+fire("withoptions-forced-section-hidden", ["C01", "C03", "C08"], "R-PO", O,
+     """        return not (
+            isinstance(get_dotted_key(key, self.options), dict)
+            and dotted_key_exists(key, options)
+            and isinstance(get_dotted_key(key, options), dict)
+        )""",
+     "        return True",
+     note="the defect repaired by 0f0b0e8: a forced pre-set section hides the caller's entries merged into it -> stale hit for a sibling inside the section")
+fire("withoptions-forced-section-only-preset-side", ["C01", "C03"], "R-PO", O,
+     """        return not (
+            isinstance(get_dotted_key(key, self.options), dict)
+            and dotted_key_exists(key, options)
+            and isinstance(get_dotted_key(key, options), dict)
+        )""",
+     """        return not (
+            isinstance(get_dotted_key(key, self.options), dict)
+            and not dotted_key_exists(key, options)
+        )""",
+     note="reports the forced section exactly when the caller does NOT have it: absent keys reported, merged ones hidden")
+silent("withoptions-forced-section-by-value-comparison", ["C01", "C02", "C03", "C08", "C11"], O,
+       """        return not (
+            isinstance(get_dotted_key(key, self.options), dict)
+            and dotted_key_exists(key, options)
+            and isinstance(get_dotted_key(key, options), dict)
+        )""",
+       """        return get_dotted_key(key, self._options(options)) == get_dotted_key(
+            key, self.options
+        )""",
+       note="hidden exactly when what the wrapped object finds under the key is the pre-set value: nothing of the caller's shows through")
+silent("withoptions-forced-section-inline-filter", ["C01", "C02", "C03", "C08", "C11"], O,
+       """            for key in self.evaluatable.keys(self._options(options))
+            if not self._is_preset(key, options)""",
+       """            for key in self.evaluatable.keys(self._options(options))
+            if not dotted_key_exists(key, self.options)
+            or (
+                dotted_key_exists(key, options)
+                and (
+                    not self.force
+                    or (
+                        isinstance(get_dotted_key(key, self.options), dict)
+                        and isinstance(get_dotted_key(key, options), dict)
+                    )
+                )
+            )""",
+       note="the same truth table written inline")
 fire("fingerprint-uses-hash", ["C03"], "R-FP", T,
      "        return json.dumps(\n            [{key: get_dotted_key(key, options)} for key in sorted(self.keys(options))]\n        ).encode()",
      "        return str(hash(json.dumps(\n            [{key: get_dotted_key(key, options)} for key in sorted(self.keys(options))]\n        ))).encode()")
@@ -1014,7 +1051,7 @@ fire("get-handler-logs-before-passing-on", ["C17"], "R-CE", C,
 fire("coalesce-mutable-default-accumulator", ["C12"], "R-GS", CL,
      "        err: Optional[EvaluationError] = None\n\n        for member in self.members:",
      "        err: Optional[EvaluationError] = None\n        seen.append(method)\n\n        for member in self.members:",
-     also=[("    def _delegate(self, method: str, options: Optional[Options]):", "    def _delegate(self, method: str, options: Optional[Options], seen=[]):")])
+     also=[("    def _delegate(self, method: str, options: Optional[Options] = None) -> Any:", "    def _delegate(self, method: str, options: Optional[Options] = None, seen=[]) -> Any:")])
 fire("overloaded-repr-sorts-aliases", ["C12", "C17"], "R-OH", OV,
      "            return f\"Overloaded({self.dispatch!r}, {self.lookup!r})\"",
      "            return f\"Overloaded({self.dispatch!r}, {dict(sorted(self.lookup.items()))!r})\"")
@@ -1199,8 +1236,8 @@ fire("pipeline-explain-symmetric-difference", ["C11", "C16"], "R-KU", PL,
      "        return self.tail.explain(options) | (\n            self.rest.explain(options) if self.rest else set()\n        )",
      "        return self.tail.explain(options) ^ (\n            self.rest.explain(options) if self.rest else set()\n        )")
 fire("partial-keys-intersection", ["C01", "C03"], "R-KU", AP,
-     "    def keys(self, options: Options) -> Set[str]:\n        return self.func.keys(options) | self.arguments.keys(options)\n\n    def explain(self, options: Optional[Options] = None) -> Set[str]:\n        return self.func.explain(options) | self.arguments.explain(options)\n\n    def __repr__(self) -> str:\n        return self._repr\n\n    @overload\n    @classmethod\n    def lift(\n        cls,\n        __func: Callable[P, A],\n        /,\n    ) -> \"PartialApplication[P, A]\": ...",
-     "    def keys(self, options: Options) -> Set[str]:\n        return self.func.keys(options) & self.arguments.keys(options)\n\n    def explain(self, options: Optional[Options] = None) -> Set[str]:\n        return self.func.explain(options) | self.arguments.explain(options)\n\n    def __repr__(self) -> str:\n        return self._repr\n\n    @overload\n    @classmethod\n    def lift(\n        cls,\n        __func: Callable[P, A],\n        /,\n    ) -> \"PartialApplication[P, A]\": ...")
+     "    def keys(self, options: Options) -> Set[str]:\n        return self.func.keys(options) | self.arguments.keys(options)\n\n    def explain(self, options: Optional[Options] = None) -> Set[str]:\n        return self.func.explain(options) | self.arguments.explain(options)\n\n    def __repr__(self) -> str:\n        return self._repr\n\n    @overload\n    @classmethod\n    def lift(\n        cls,\n        __func: Callable[P, A],\n        /,\n        **kwargs: \"MaybeEvaluatable[P.kwargs]\",\n    ) -> \"PartialApplication[P, A]\": ...",
+     "    def keys(self, options: Options) -> Set[str]:\n        return self.func.keys(options) & self.arguments.keys(options)\n\n    def explain(self, options: Optional[Options] = None) -> Set[str]:\n        return self.func.explain(options) | self.arguments.explain(options)\n\n    def __repr__(self) -> str:\n        return self._repr\n\n    @overload\n    @classmethod\n    def lift(\n        cls,\n        __func: Callable[P, A],\n        /,\n        **kwargs: \"MaybeEvaluatable[P.kwargs]\",\n    ) -> \"PartialApplication[P, A]\": ...")
 fire("arguments-explain-or", ["C11"], "R-KU", AR,
      "        return self.args.explain(options) | self.kwargs.explain(options)",
      "        return self.args.explain(options) or self.kwargs.explain(options)")
@@ -1286,8 +1323,8 @@ fire("switcherror-arguments-swapped", ["C12"], "R-KN", CO,
      "                raise SwitchError(self.dispatch, key, self.lookup)",
      "                raise SwitchError(key, self.dispatch, self.lookup)")
 fire("switcherror-source-is-the-value", ["C12"], "R-KN", CO,
-     "            f\"but must be one of {', '.join(map(str, lookup.keys()))}.\",\n            dispatch,\n        )",
-     "            dispatch,\n            f\"but must be one of {', '.join(map(str, lookup.keys()))}.\",\n        )",
+     "            f\"Evaluated to {value}, \"\n            f\"but must be one of {', '.join(map(str, lookup.keys()))}.\",\n            dispatch,\n        )",
+     "            dispatch,\n            f\"Evaluated to {value}, \"\n            f\"but must be one of {', '.join(map(str, lookup.keys()))}.\",\n        )",
      note="message and source swapped in the call of EvaluationError.__init__")
 fire("cachegetfailure-arguments-swapped", ["C12"], "R-KN", C,
      "    raise CacheGetFailure(request.evaluatable, request.options, request.cache)",
